@@ -14,10 +14,10 @@ EXTRACT = "ExC06"
 TECHNIQUE = "Coq proof (induction over reply lines; rstrip/partition lemmas) about an executable model of write_response/parse_response/Code.matches/command/parse_command, tied to the code by differential correspondence of the extracted model against the real functions under explicit byte segmentations"
 LEVEL_TEXT = (
     "Theorems C06_decode_encode, C06_mismatch_rejected, C06_mismatch_any_line, C06_matches_spec, C06_command_loop, "
-    "C06_decode_sequence, C06_command_then_command and C06_parse_command_build are proved for every 3-digit code, every LF-free line list of any length and content, both "
-    "framing modes, every following stream and every reply sequence (Closed under the global context). The model is "
+    "C06_decode_sequence, C06_decode_reply_stream(_then), C06_command_then_command and C06_parse_command_build are proved for every 3-digit code, every LF-free line list of any length and content (no bound on line length or reply size), both "
+    "framing modes, every following stream and every reply sequence - decode(encode r1 ++ ... ++ encode rn ++ k) = [r1..rn] ++ decode k, no residue - (Closed under the global context). The model is "
     "hand-written; its tie to the code is a differential correspondence (about 5*10^4 cases per quick run, bounded-exhaustive "
-    "plus random, real bytes under whole/byte-by-byte/random segmentations, utf-8 and seven single-byte code pages incl. a sweep of every byte value each codec can produce), so the assurance is a proof "
+    "plus random, real bytes under whole/byte-by-byte/random/MSS/block segmentations, utf-8 and seven single-byte code pages incl. a sweep of every byte value each codec can produce, a deterministic corpus of reply sizes on and around the block size, its multiples and the 64 KiB stream limits, each sized reply followed by further replies on the same stream, and the same sequences through the real server-side and client-side streams over the in-memory network and loopback TCP incl. whole real server/client sessions), so the assurance is a proof "
     "about the model plus sampled agreement of model and code."
 )
 LEVEL_NOTE = (
@@ -141,6 +141,9 @@ def segmentations(rng, data, n_random):
         cuts = sorted(rng.sample(range(1, len(data)), min(len(data) - 1, rng.randint(1, 5)))) if len(data) > 1 else []
         segs = [data[a:b] for a, b in zip([0] + cuts, cuts + [len(data)])]
         yield segs
+    if len(data) > 2000:  # long streams: network-sized (MSS) and block-sized segments
+        for step in (1460, block_size()):
+            yield [data[i : i + step] for i in range(0, len(data), step)]
 
 
 def gen_line(rng):
@@ -429,6 +432,454 @@ def empty_line_corpus():
     return cases
 
 
+# ---- the SIZE dimension: replies whose framed size sits on / around the sizes at which buffers, blocks and
+# ---- flow control change state (aioftp.DEFAULT_BLOCK_SIZE, its fractions and multiples, the 64 KiB stream limits)
+FILL_UNITS = ["a", "ab1 -x", "é2", "0123456789"]
+PACK_MIN = 200
+
+
+def fill(unit, n):
+    return (unit * (n // len(unit) + 1))[:n]
+
+
+def fill_sized(unit, size, enc=None):
+    """LF-free text of exactly `size` characters (enc None) or exactly `size` bytes under `enc`:
+    the unit repeated, padded with 'a'"""
+    if size <= 0:
+        return ""
+    if enc is None:
+        return fill(unit, size)
+    ub = len(unit.encode(enc))
+    s = unit * (size // ub)
+    rem = size - (size // ub) * ub
+    for ch in unit:
+        b = len(ch.encode(enc))
+        if b > rem:
+            break
+        s += ch
+        rem -= b
+    return s + "a" * rem
+
+
+def pack_line(line):
+    """compact, exact representation of a long generated line for replay files"""
+    if not isinstance(line, str) or len(line) <= PACK_MIN:
+        return line
+    for unit in FILL_UNITS:
+        body = line if unit == "a" else line.rstrip("a")
+        if body == fill(unit, len(body)):
+            return {"fill": unit, "n": len(body), "pad": len(line) - len(body)}
+    return line
+
+
+def unpack_line(x):
+    if isinstance(x, dict):
+        return fill(x["fill"], x["n"]) + "a" * x["pad"]
+    return x
+
+
+def pack_reply(r):
+    return [r[0], [pack_line(l) for l in r[1]], r[2]]
+
+
+def unpack_reply(r):
+    return [r[0], [unpack_line(l) for l in r[1]], r[2]]
+
+
+def pack_item(it):
+    if it[0] == "good":
+        return ["good", it[1], [pack_line(l) for l in it[2]], it[3]]
+    return ["bad", it[1], it[2], pack_line(it[3]), [pack_line(l) for l in it[4]], pack_line(it[5])]
+
+
+def unpack_item(it):
+    if it[0] == "good":
+        return ["good", it[1], [unpack_line(l) for l in it[2]], it[3]]
+    return ["bad", it[1], it[2], unpack_line(it[3]), [unpack_line(l) for l in it[4]], unpack_line(it[5])]
+
+
+def brief(x, keep=48):
+    """diagnostic fields of a replay (decoded / expected / wire): long strings abbreviated; the INPUT
+    fields stay exact (packed)"""
+    if isinstance(x, str):
+        return x if len(x) <= 2 * keep + 24 else "%s...(%d chars)...%s" % (x[:keep], len(x), x[-keep // 2:])
+    if isinstance(x, (list, tuple)):
+        if len(x) > 12:
+            return [brief(y, keep) for y in x[:4]] + ["...(%d items)..." % len(x)] + [brief(y, keep) for y in x[-3:]]
+        return [brief(y, keep) for y in x]
+    return x
+
+
+def pack_segs(segs):
+    return [len(x) for x in segs]
+
+
+SENTINEL = ["200", ["sentinel ok"], False]
+
+
+def sized_sequences(rng, sized, thorough):
+    """reply SEQUENCES around the size corpus: every sized reply followed by another reply on the same
+    stream (the property speaks about the stream: what one reply leaves behind is seen by the next),
+    some between two small replies, some back to back with another sized one"""
+    primary, _ = size_bounds()
+    out = []
+    for i, (code, lines, lm, enc) in enumerate(sized):
+        near_primary = any(abs(sum(map(len, lines)) + framing_overhead(len(lines), lm) - t) <= 4 for t in primary)
+        if not (thorough or near_primary or i % 3 == 0):
+            continue
+        big = [code, lines, lm]
+        seq = [big, SENTINEL]
+        if i % 4 == 1:
+            seq = [gen_reply(rng, CODES, 0.0), big, SENTINEL]
+        elif i % 4 == 2:
+            c2, l2, lm2, _ = sized[(i * 7 + 3) % len(sized)]
+            seq = [big, [c2, l2, lm2], SENTINEL]
+        elif i % 4 == 3:
+            seq = [big, big, gen_reply(rng, CODES, 0.0)]
+        texts = [l for r in seq for l in r[1]]
+        out.append((seq, enc if all(encodable(t, enc) for t in texts) else "utf-8"))
+    return out
+
+
+def block_size():
+    return int(getattr(aioftp, "DEFAULT_BLOCK_SIZE", 8192))
+
+
+def size_bounds():
+    """sizes around which the reply path may change behaviour: the library's block size, its half and
+    multiples, a page, the 64 KiB stream limit / high-water mark"""
+    b = block_size()
+    return [b, 2 * b], sorted({b // 2, 3 * b, 4 * b, 4096, 65536} - {b, 2 * b})
+
+
+def framing_overhead(n, lm):
+    """characters a reply of n lines adds around the line texts (3-digit code, separator, CRLF)"""
+    return 12 + 3 * (n - 2) if lm else 6 * n
+
+
+def sized_lines(n, lm, total, unit, enc=None, reach_at=None):
+    """n lines whose framed reply has exactly `total` characters (bytes under `enc`).  The text is spread
+    evenly; with reach_at = k the first k lines already carry the whole size and the others are short"""
+    k = n if reach_at is None else reach_at
+    short = ["t%d" % i for i in range(n - k)]
+    payload = total - framing_overhead(n, lm) - sum(len(x) for x in short)
+    if payload < 0 or k < 1:
+        return None
+    q = payload // k
+    sizes = [q] * (k - 1) + [payload - q * (k - 1)]
+    return [fill_sized(unit, z, enc) for z in sizes] + short
+
+
+def size_corpus(thorough):
+    """deterministic (seed-independent) replies around every size bound: a single long line, 2..129 lines
+    whose LAST line completes the size, many equal short lines summing to it, the size reached in the
+    middle of the reply; both framing modes; sizes counted in characters and (utf-8, 2-byte text) in bytes"""
+    primary, secondary = size_bounds()
+    cases, idx = [], 0
+    wide = (-3, -2, -1, 0, 1, 2, 3, 700)
+    full = [(1, False, None)] + [(n, m, None) for n in (2, 3, 4, 41, 129) for m in (False, True)] + [(5, False, 3), (6, True, 4)]
+    mid = [(1, False, None), (3, False, None), (3, True, None), (41, True, None), (129, False, None), (129, True, None), (5, False, 3), (6, True, 4)]
+    few = [(1, False, None), (3, True, None), (129, False, None), (6, True, 4)]
+    plan = [(primary[0], wide, full)]
+    if thorough:
+        plan += [(primary[1], wide, full)] + [(t, (-2, -1, 0, 1, 2), full) for t in secondary]
+    else:  # the quick tier keeps every bound and both sides of it, with fewer shapes on the large ones
+        plan += [(primary[1], (-1, 0, 1), mid)] + [(t, (-1, 0, 1), mid if t < primary[1] else few) for t in secondary]
+    for bound, deltas, base_shapes in plan:
+        for d in deltas:
+            total = bound + d
+            shapes = list(base_shapes)
+            if d == 0:
+                shapes += [(total // 32, False, None), (total // 64, True, None)] + ([(total // 8, False, None)] if thorough or bound <= primary[1] else [])
+            for n, lm, reach in shapes:
+                idx += 1
+                unit = FILL_UNITS[idx % len(FILL_UNITS)]
+                if unit == "é2":
+                    enc, measure = ("utf-8", "utf-8") if idx % 8 < 4 else ("latin-1", None)
+                else:
+                    enc, measure = "utf-8", None
+                lines = sized_lines(n, lm, total, unit, measure, reach)
+                if lines is None:
+                    continue
+                code = CODES[idx % len(CODES)]
+                cases.append((code, lines, lm, enc))
+    return cases
+
+
+def gen_sized_reply(rng, codes=SEQ_CODES):
+    """a random reply whose framed size is near a size bound (or anywhere up to 70000), 1..200 lines"""
+    primary, secondary = size_bounds()
+    r = rng.random()
+    if r < 0.5:
+        total = rng.choice(primary) + rng.randint(-4, 4)
+    elif r < 0.75:
+        total = rng.choice(secondary) + rng.randint(-2, 2)
+    else:
+        total = int(2 ** rng.uniform(9, 16.1))
+    n = rng.choice([1, 1, 2, 3, 5, 17, 64, 200])
+    lm = n >= 2 and rng.random() < 0.5
+    unit = rng.choice(FILL_UNITS)
+    reach = rng.randint(1, n) if n > 2 and rng.random() < 0.3 else None
+    lines = sized_lines(n, lm, total, unit, "utf-8" if unit == "é2" and rng.random() < 0.5 else None, reach)
+    if lines is None:
+        lines, lm = [fill(unit, max(total - 6, 0))], False
+    return [rng.choice(codes), lines, lm]
+
+
+# ---- (h) transport drivers: the REAL server side writes, the REAL client side reads, over the in-memory
+# ---- network (simnet, virtual clock) and over real loopback TCP
+LINE_LIMIT = 60000  # single lines stay below the 64 KiB readline limit of asyncio streams (C19's subject)
+
+
+def make_segmenter(spec):
+    """("none") | ("chunk", n) | ("cuts", seed): how the bytes of each server write are split"""
+    if not spec or spec[0] == "none":
+        return None
+    if spec[0] == "chunk":
+        n = spec[1]
+        return lambda data: [data[i : i + n] for i in range(0, len(data), n)]
+    import random
+
+    r = random.Random(spec[1])
+
+    def f(data):
+        if len(data) < 2:
+            return [data]
+        cuts = sorted(r.sample(range(1, len(data)), min(len(data) - 1, r.randint(1, 3))))
+        return [data[a:b] for a, b in zip([0] + cuts, cuts + [len(data)])]
+
+    return f
+
+
+async def pair_session(seq, enc, timeout):
+    """each reply of `seq` through the REAL Server.write_response on the accepted connection's
+    ThrottleStreamIO (as the dispatcher builds it) -> transport -> the stream the REAL BaseClient.connect
+    builds -> len(seq)+1 REAL Client.parse_response calls"""
+    server = aioftp.Server(encoding=enc)
+    state = {"server_raised": None}
+
+    async def handler(reader, writer):
+        stream = aioftp.ThrottleStreamIO(reader, writer, throttles={"_": aioftp.StreamThrottle.from_limits()}, write_timeout=timeout)
+        try:
+            for code, lines, lm in seq:
+                await server.write_response(stream, code, list(lines), lm)
+        except Exception as e:
+            state["server_raised"] = type(e).__name__
+        finally:
+            stream.close()
+
+    srv = await asyncio.start_server(handler, "127.0.0.1", 0)
+    port = srv.sockets[0].getsockname()[1]
+    client = aioftp.Client(encoding=enc, socket_timeout=timeout)
+    outs = []
+    try:
+        await aioftp.BaseClient.connect(client, "127.0.0.1", port)
+        for _ in range(len(seq) + 1):
+            try:
+                code, info = await client.parse_response()
+                outs.append([0, str(code), list(info)])
+            except errors.StatusCodeError as e:
+                outs.append([1, str(e.expected_codes[0]) if e.expected_codes else "", str(e.received_codes[0]) if e.received_codes else ""])
+            except ConnectionResetError:
+                outs.append([2])
+                break
+            except Exception as e:
+                outs.append([3, type(e).__name__])
+                break
+    except Exception as e:
+        outs.append([3, "connect:" + type(e).__name__])
+    finally:
+        client.close()
+        srv.close()
+        await srv.wait_closed()
+    return outs, state["server_raised"]
+
+
+def unknown_verb(n):
+    return fill("XqZv", n)
+
+
+async def server_session(verb_lengths, enc, timeout):
+    """the REAL Server (dispatcher, parse_command, response queue, response_writer, write_response) and the
+    REAL Client (connect, login, command): an unknown verb of each length is answered by 502 echoing it,
+    then SYST must be answered by its own reply.  What the server encodes is recorded at write_response."""
+    server = aioftp.Server(path_io_factory=aioftp.MemoryPathIO, encoding=enc)
+    sent = []
+    real_wr = server.write_response
+
+    async def recording(stream, code, lines="", list=False):
+        ls = [lines] if isinstance(lines, str) else [*lines]
+        sent.append([code, ls, bool(list)])
+        return await real_wr(stream, code, ls, list)
+
+    server.write_response = recording
+    await server.start("127.0.0.1", 0)
+    port = server.server.sockets[0].getsockname()[1]
+    client = aioftp.Client(encoding=enc, socket_timeout=timeout)
+    outs = []
+    try:
+        await client.connect("127.0.0.1", port)
+        await client.login()
+        for n in verb_lengths:
+            for cmd in (unknown_verb(n), "SYST"):
+                n0 = len(sent)
+                try:
+                    code, info = await client.command(cmd, "xxx")  # any code is accepted here; judged below
+                    got = [0, str(code), list(info)]
+                except errors.StatusCodeError as e:
+                    got = [1, str(e.expected_codes[0]) if e.expected_codes else "", str(e.received_codes[0]) if e.received_codes else ""]
+                except ConnectionResetError:
+                    got = [2]
+                except Exception as e:
+                    got = [3, type(e).__name__]
+                outs.append({"command": cmd if len(cmd) < 20 else "unknown verb of %d characters" % n, "got": got, "encoded": [list(x) for x in sent[n0:]]})
+                if got[0] >= 2:
+                    break
+            if outs and outs[-1]["got"][0] >= 2:
+                break
+    except Exception as e:
+        outs.append({"command": "connect/login", "got": [3, type(e).__name__], "encoded": []})
+    finally:
+        client.close()
+        try:
+            await asyncio.wait_for(server.close(), 5)
+        except Exception:
+            pass
+    return outs
+
+
+def judge_session(outs, verb_lengths):
+    """-> None when every command was answered by exactly the reply the server encoded for it"""
+    if len(outs) != 2 * len(verb_lengths):
+        return "the session stopped after %d of %d commands: %s" % (len(outs), 2 * len(verb_lengths), brief(outs[-1:]))
+    for i, o in enumerate(outs):
+        want_code = "502" if i % 2 == 0 else "215"
+        if o["got"][0] != 0 or o["got"][1] != want_code:
+            return "%s answered by %s" % (o["command"], brief(o["got"]))
+        if len(o["encoded"]) == 1:  # what the server handed to write_response for this command
+            c, ls, lm = o["encoded"][0]
+            if o["got"] != [0, c, expected_info(c, ls, lm)]:
+                return "%s: the server encoded %s, the client decoded %s" % (o["command"], brief([c, ls, lm]), brief(o["got"]))
+    return None
+
+
+def run_tcp(coro_fn, wall):
+    """the same coroutine on a real event loop / real loopback sockets"""
+    loop = asyncio.new_event_loop()
+    try:
+        return loop.run_until_complete(asyncio.wait_for(coro_fn(), wall))
+    finally:
+        try:
+            loop.run_until_complete(asyncio.sleep(0.01))
+            for t in asyncio.all_tasks(loop):
+                t.cancel()
+            loop.run_until_complete(asyncio.sleep(0))
+        except Exception:
+            pass
+        loop.close()
+
+
+def session_verbs(thorough):
+    """verb lengths that put the 502 reply's framed size on every value around each primary size bound
+    (whatever the fixed part of the message is, up to 40 characters)"""
+    primary, secondary = size_bounds()
+    out = []
+    for t in primary + (secondary if thorough else []):
+        if t + 8 < LINE_LIMIT:
+            out.append([n for n in range(t - 40, t + 5)] if t == primary[0] or thorough else [n for n in range(t - 30, t - 16)])
+    return out
+
+
+def transport(ctx, sized):
+    from .. import simnet
+
+    rng, thorough = ctx.rng, ctx.tier == "thorough"
+    seqs = [(seq, enc) for seq, enc in sized_sequences(rng, sized, thorough) if all(len(l.encode(enc)) < LINE_LIMIT for r in seq for l in r[1])]
+    for _ in range(60 if thorough else 20):
+        seq = [gen_sized_reply(rng, CODES) if rng.random() < 0.6 else gen_reply(rng, CODES, 0.2) for _ in range(rng.randint(2, 4))]
+        enc = pick_enc(rng, [l for r in seq for l in r[1]])
+        if all(len(l.encode(enc)) < LINE_LIMIT for r in seq for l in r[1]):
+            seqs.append((seq, enc))
+    jobs = []
+    for i, (seq, enc) in enumerate(seqs):
+        segspec = [["none"], ["chunk", 1460], ["cuts", i], ["none"], ["chunk", block_size()], ["chunk", 7]][i % 6]
+        if segspec == ["chunk", 7] and sum(len(l) for r in seq for l in r[1]) > 20000:
+            segspec = ["chunk", 512]
+        jobs.append((seq, enc, segspec))
+
+    def judge(seq, enc, segspec, driver, outs, server_raised):
+        ctx.case(("transport", driver, repr(segspec), enc, tuple((r[0], tuple(r[1]), r[2]) for r in seq)))
+        ctx.traces_impl += 1
+        want = [[0, r[0], expected_info(r[0], r[1], r[2])] for r in seq] + [[2]]
+        if outs != want or server_raised:
+            ctx.violation(
+                "replies written by the server on one connection were not decoded reply by reply by the client",
+                {"key": "c06-transport-sequence", "driver": driver, "replies": [pack_reply(r) for r in seq], "encoding": enc,
+                 "segmenter": segspec, "got": brief(outs), "expected": brief(want), "server_raised": server_raised},
+            )
+
+    async def main(net):
+        res = []
+        for seq, enc, segspec in jobs:
+            net.on_connect = lambda ct, st, _s=segspec: setattr(st.out, "segmenter", make_segmenter(_s))
+            try:
+                res.append(await pair_session(seq, enc, 30))
+            except Exception as e:  # an exception of the (changed) implementation is an observation
+                res.append(([[3, "session:" + type(e).__name__]], None))
+        vres = []
+        for k, lens in enumerate(session_verbs(thorough)):
+            net.on_connect = lambda ct, st, _k=k: setattr(st.out, "segmenter", make_segmenter([["none"], ["chunk", 1460]][_k % 2]))
+            vres.append((lens, await server_session(lens, "utf-8", 30)))
+        return res, vres
+
+    try:
+        res, vres = simnet.run(main, wall_timeout=240 if thorough else 100)
+    except Exception as e:
+        ctx.notes.append(f"transport driver (simnet) aborted: {e!r}")
+        res, vres = [], []
+    for (seq, enc, segspec), (outs, sr) in zip(jobs, res):
+        judge(seq, enc, segspec, "simnet", outs, sr)
+    ctx.count("transport_simnet_sequences", len(res))
+    ctx.count("transport_simnet_replies", sum(len(j[0]) for j in jobs[: len(res)]))
+    for lens, outs in vres:
+        ctx.case(("session", "simnet", tuple(lens)))
+        ctx.traces_impl += 1
+        ctx.count("session_simnet_commands", len(outs))
+        why = judge_session(outs, lens)
+        if why:
+            ctx.violation("real server / real client session: " + why,
+                          {"key": "c06-session-replies", "driver": "simnet", "verb_lengths": lens, "encoding": "utf-8", "why": why})
+
+    # once over the wire: real loopback TCP, real event loop (kernel segmentation)
+    primary, _ = size_bounds()
+    near = [j for j in jobs if any(abs(sum(len(l.encode(j[1])) for l in r[1]) + framing_overhead(len(r[1]), r[2]) - primary[0]) <= 1 for r in j[0])]
+    wire_jobs = (near[:: max(len(near) // 12, 1)] + jobs[-3:]) if not thorough else near + jobs[-20:]
+    n_wire, t_wire = 0, __import__("time").time()
+    for seq, enc, _ in wire_jobs:
+        if __import__("time").time() - t_wire > (120 if thorough else 40):  # a (changed) implementation that stalls: enough seen
+            break
+        try:
+            outs, sr = run_tcp(lambda: pair_session(seq, enc, 5), 20)
+        except Exception as e:
+            outs, sr = [[3, "session:" + type(e).__name__]], None
+        judge(seq, enc, ["kernel"], "tcp", outs, sr)
+        n_wire += 1
+    ctx.count("transport_tcp_sequences", n_wire)
+    b = primary[0]
+    lens = list(range(b - 30, b - 16))
+    try:
+        outs = run_tcp(lambda: server_session(lens, "utf-8", 5), 40)
+    except Exception as e:
+        outs = [{"command": "session", "got": [3, type(e).__name__], "encoded": []}]
+    ctx.case(("session", "tcp", tuple(lens)))
+    ctx.traces_impl += 1
+    ctx.count("session_tcp_commands", len(outs))
+    why = judge_session(outs, lens)
+    if why:
+        ctx.violation("real server / real client session over loopback TCP: " + why,
+                      {"key": "c06-session-replies", "driver": "tcp", "verb_lengths": lens, "encoding": "utf-8", "why": why})
+
+
 def correspondence(ctx, budget=None):
     rng = ctx.rng
     thorough = ctx.tier == "thorough"
@@ -447,7 +898,14 @@ def correspondence(ctx, budget=None):
         "mask sets that overlap, are shorter/longer than 3 characters or carry non-digit / non-ASCII-digit characters), judged by "
         "spec_commands: first reply matching no wait mask returned, exactly the following ones left for the next command, "
         "(f) server parse_command lines, (g) whole reply sequences (good replies interleaved with rejected ones and, for the "
-        "correspondence only, replies with non-3-digit codes) decoded by successive parse_response calls. A case is non-trivial "
+        "correspondence only, replies with non-3-digit codes) decoded by successive parse_response calls, "
+        "(s) SIZE: a deterministic corpus of replies whose framed size is on / around aioftp.DEFAULT_BLOCK_SIZE, its half and multiples, "
+        "4 KiB and 64 KiB (offsets -3..+3, +700): one long line, 2..129 lines with the LAST line completing the size, the size reached "
+        "mid-reply, many equal short lines summing to it, both modes, sizes in characters and in utf-8 bytes - fed to (a), and, each "
+        "followed by / between / back to back with other replies, to (e) and (g), plus random sized replies, "
+        "(h) the same sequences written by the real Server.write_response on the accepted connection and read by the real client stream "
+        "over the in-memory network (per-write segmenters) and over loopback TCP, and whole real Server/Client sessions in which unknown "
+        "verbs of every length around the block size are answered by the 502 echo and followed by SYST. A case is non-trivial "
         "when distinct (hash of input); trivial = duplicate input."
     )
     servers = {e: aioftp.Server(encoding=e) for e in ENCODINGS}
@@ -467,7 +925,10 @@ def correspondence(ctx, budget=None):
     ctx.count("encode_codec_sweep", len(sweep))
     empties = empty_line_corpus()
     ctx.count("encode_empty_line_corpus", len(empties))
-    enc_cases += sweep + empties
+    sized = size_corpus(thorough)
+    ctx.count("encode_size_corpus", len(sized))
+    ctx.count("encode_size_corpus_bytes", sum(sum(map(len, c[1])) for c in sized))
+    enc_cases += sweep + empties + sized
     for _ in range(n_rand):
         code = rng.choice(CODES) if rng.random() < 0.7 else "".join(rng.choice("0123456789") for _ in range(3))
         n = rng.choice([1, 1, 2, 2, 3, 4, 6])
@@ -489,18 +950,18 @@ def correspondence(ctx, budget=None):
         if im[0] == "err":
             mcanon = ("err", "ValueError") if mo[0] == -1 else ("ok", None)
             if mcanon != im:
-                ctx.disagree("write_response", [code, lines, lm], mo, im)
+                ctx.disagree("write_response", brief([code, lines, lm]), mo, im)
             if len(lines) >= (2 if lm else 1):  # inside the property's domain: the server must emit it
                 ctx.violation(
                     "the server raised instead of emitting a reply",
-                    {"key": "c06-encode-raised", "code": code, "lines": lines, "list": lm, "encoding": enc, "raised": im[1]},
+                    {"key": "c06-encode-raised", "code": code, "lines": [pack_line(l) for l in lines], "list": lm, "encoding": enc, "raised": im[1]},
                 )
             continue
         if mo[0] == -1 or sx.txt(mo[1]).encode(enc) != im[1]:
-            ctx.disagree("write_response", [code, lines, lm, enc], str(mo)[:300], repr(im[1])[:300])
-        if len(xcheck) < 40:
+            ctx.disagree("write_response", brief([code, lines, lm, enc]), str(mo)[:300], repr(im[1])[:300])
+        if len(xcheck) < 40 and sum(map(len, lines)) < 400:
             xcheck.append((0, [code, lines, lm], mo))
-        ctx.sample({"stream": "encode", "code": code, "lines": lines, "list": lm, "wire": im[1].decode(enc)})
+        ctx.sample({"stream": "encode", "code": code, "lines": brief(lines), "list": lm, "wire": brief(im[1].decode(enc))})
         # lines with LF are outside the property's domain (a line is LF-free)
         if any("\n" in l for l in lines):
             continue
@@ -522,15 +983,15 @@ def correspondence(ctx, budget=None):
             ctx.traces_impl += 1
             r, rest = canon_presult(impl_parse_response(loop, clients[enc], segs))
             if r != mcanon or (mrest is not None and rest != mrest):
-                ctx.disagree("parse_response", {"wire": data.decode(enc), "segs": list(map(len, segs))}, [mcanon, repr(mrest)], [r, repr(rest)])
+                ctx.disagree("parse_response", {"wire": brief(data.decode(enc)), "segs": brief(list(map(len, segs)))}, brief([mcanon, repr(mrest)]), brief([r, repr(rest)]))
             # property oracle on the implementation
             if r != want or rest != follow:
                 ctx.violation(
                     "reply decoded differently from what was encoded",
-                    {"key": "c06-roundtrip", "code": code, "lines": lines, "list": lm, "encoding": enc,
-                     "segments": list(map(len, segs)), "decoded": r, "expected": want, "rest": repr(rest)},
+                    {"key": "c06-roundtrip", "code": code, "lines": [pack_line(l) for l in lines], "list": lm, "encoding": enc,
+                     "segments": pack_segs(segs), "emitted_bytes": len(wire), "decoded": brief(r), "expected": brief(want), "rest": brief(repr(rest))},
                 )
-        if len(xcheck) < 80:
+        if len(xcheck) < 80 and len(data) < 400:
             xcheck.append((1, [data.decode(enc)], mo))
     ctx.count("decode_wires", len(decode_jobs))
 
@@ -646,6 +1107,23 @@ def correspondence(ctx, budget=None):
         enc = pick_enc(rng, [l for r in replies for l in r[1]])
         cmd_cases.append((replies, cmds, enc, rng.random()))
     ctx.count("command_random", n_cmd)
+    n_before = len(cmd_cases)
+    for k, (seq, enc) in enumerate(sized_sequences(rng, sized, thorough)):
+        if not thorough and k % 2:
+            continue
+        first = seq[0][0]
+        cmds = [[[[first[0] + "xx"], []], [["xxx"], []], [["xxx", "2"], []]],
+                [[[], [first]], [["xxx"], []]],
+                [[["xxx"], []]] * (len(seq) + 1)][k % 3]
+        cmd_cases.append((seq, cmds, enc, 0.5 if k % 2 else None))
+    for _ in range(n_cmd // 20):
+        pool = rng.sample(SEQ_CODES, 3)
+        replies = [gen_sized_reply(rng, pool) if rng.random() < 0.5 else gen_reply(rng, pool) for _ in range(rng.randint(2, 4))]
+        in_play = [r[0] for r in replies]
+        cmds = [[gen_masks(rng, in_play), [m for m in gen_masks(rng, in_play) if any(ch.isdigit() for ch in m)]] for _ in range(rng.choice([1, 2, 3]))]
+        cmds = [c if c[0] or c[1] else [["xxx"], []] for c in cmds]  # command(None, (), ()) is not a call the library supports
+        cmd_cases.append((replies, cmds, pick_enc(rng, [l for r in replies for l in r[1]]), rng.random()))
+    ctx.count("command_sized_sequences", len(cmd_cases) - n_before)
     cmd_jobs = []
     for replies, cmds, enc, r in cmd_cases:
         wires = encode_replies(loop, servers[enc], replies)
@@ -662,7 +1140,7 @@ def correspondence(ctx, budget=None):
         got, rest = impl_commands(loop, clients[enc], cmds, segs)
         m_out, m_rest = model_cresults(o, enc)
         if got != m_out or (m_rest is not None and rest != m_rest):
-            ctx.disagree("command", {"commands": cmds, "wire": data.decode(enc), "segs": list(map(len, segs))}, str([m_out, m_rest]), str([got, rest]))
+            ctx.disagree("command", {"commands": cmds, "wire": brief(data.decode(enc)), "segs": brief(pack_segs(segs))}, str(brief([m_out, repr(m_rest)])), str(brief([got, repr(rest)])))
         want, left, st = spec_commands(replies, cmds)
         want_rest = b"".join(wires[left:])
         ctx.count("command_first_" + ["ok", "statuserror", "reset"][want[0][0]])
@@ -673,12 +1151,12 @@ def correspondence(ctx, budget=None):
         if got != want or rest != want_rest:
             ctx.violation(
                 "command() did not return the first reply matching no wait mask / did not leave exactly the following replies",
-                {"key": "c06-command-loop", "replies": replies, "commands": cmds, "encoding": enc, "segments": list(map(len, segs)),
-                 "wire": data.decode(enc), "got": got, "expected": want, "rest": repr(rest), "expected_rest": repr(want_rest)},
+                {"key": "c06-command-loop", "replies": [pack_reply(x) for x in replies], "commands": cmds, "encoding": enc, "segments": pack_segs(segs),
+                 "wire": brief(data.decode(enc)), "got": brief(got), "expected": brief(want), "rest": brief(repr(rest)), "expected_rest": brief(repr(want_rest))},
             )
-        if len(xcheck) < 140 and r is not None:
+        if len(xcheck) < 140 and r is not None and len(data) < 400:
             xcheck.append((6, [cmds, data.decode(enc)], o))
-    ctx.sample({"stream": "command", "commands": cmd_jobs[-1][1], "wire": b"".join(cmd_jobs[-1][3]).decode(cmd_jobs[-1][2])})
+    ctx.sample({"stream": "command", "commands": cmd_jobs[-1][1], "wire": brief(b"".join(cmd_jobs[-1][3]).decode(cmd_jobs[-1][2]))})
 
     # ---------------- (g) whole reply sequences decoded by successive parse_response calls: replies of
     # all three forms interleaved with rejected ones (closing line of another code) and, for the
@@ -705,6 +1183,22 @@ def correspondence(ctx, budget=None):
                 in_domain = False
         enc = pick_enc(rng, [x for it in items for x in ([it[1]] + it[2] if it[0] == "good" else [it[1], it[2], it[3], it[5]] + it[4])])
         seq_cases.append((items, enc, in_domain))
+    n_before = len(seq_cases)
+    for seq, enc in sized_sequences(rng, sized, thorough):
+        seq_cases.append(([["good"] + list(r) for r in seq], enc, True))
+    for _ in range(n_seq // 20):  # random: sized replies between small ones and rejected ones
+        items = []
+        for _ in range(rng.randint(2, 4)):
+            r = rng.random()
+            if r < 0.5:
+                items.append(["good"] + gen_sized_reply(rng, CODES))
+            elif r < 0.85:
+                items.append(["good"] + gen_reply(rng, CODES, 0.3))
+            else:
+                code, other = rng.sample(CODES, 2)
+                items.append(["bad", code, other, "h", [fill("ab1 -x", rng.choice(size_bounds()[0]) - 20 + rng.randint(-3, 3))], "tail"])
+        seq_cases.append((items, pick_enc(rng, [x for it in items for x in (it[2] if it[0] == "good" else [it[3], it[5]] + it[4])]), True))
+    ctx.count("sequence_sized", len(seq_cases) - n_before)
     seq_jobs = []
     for items, enc, in_domain in seq_cases:
         wires = []
@@ -730,7 +1224,7 @@ def correspondence(ctx, budget=None):
         got, rest = impl_parse_all(loop, clients[enc], len(items) + 1, segs)
         m_out = model_presults(o)
         if got != m_out[: len(items) + 1]:
-            ctx.disagree("parse_sequence", {"wire": data.decode(enc), "segs": list(map(len, segs))}, str(m_out), str(got))
+            ctx.disagree("parse_sequence", {"wire": brief(data.decode(enc)), "segs": brief(pack_segs(segs))}, str(brief(m_out)), str(brief(got)))
         ctx.count("sequence_in_domain" if in_domain else "sequence_odd_codes")
         ctx.count("sequence_items_good", sum(it[0] == "good" for it in items))
         ctx.count("sequence_items_rejected", sum(it[0] == "bad" for it in items))
@@ -739,12 +1233,12 @@ def correspondence(ctx, budget=None):
             if got != want or rest != b"":
                 ctx.violation(
                     "a reply sequence was not decoded reply by reply (a reply mis-framed, or one desynchronised a later one)",
-                    {"key": "c06-sequence", "items": items, "encoding": enc, "segments": list(map(len, segs)),
-                     "wire": data.decode(enc), "got": got, "expected": want, "rest": repr(rest)},
+                    {"key": "c06-sequence", "items": [pack_item(it) for it in items], "encoding": enc, "segments": pack_segs(segs),
+                     "wire": brief(data.decode(enc)), "got": brief(got), "expected": brief(want), "rest": brief(repr(rest))},
                 )
-        if len(xcheck) < 160:
+        if len(xcheck) < 160 and len(data) < 400:
             xcheck.append((5, [data.decode(enc)], o))
-    ctx.sample({"stream": "sequence", "wire": b"".join(seq_jobs[-1][3]).decode(seq_jobs[-1][1])})
+    ctx.sample({"stream": "sequence", "wire": brief(b"".join(seq_jobs[-1][3]).decode(seq_jobs[-1][1]))})
 
     # ---------------- (f) server parse_command
     pc_cases = []
@@ -777,6 +1271,10 @@ def correspondence(ctx, budget=None):
                 ctx.violation("command line not parsed back to (verb, arg)", {"key": "c06-parse-command", "verb": verb, "arg": arg, "encoding": enc, "got": repr(val)})
     ctx.count("parse_command_lines", len(pc_cases))
 
+    # ---------------- (h) the same sized sequences over transports: in-memory network and loopback TCP
+    if budget is None:
+        transport(ctx, sized)
+
     ok, out = __import__("harness.core", fromlist=["x"]).vm_crosscheck(EXTRACT, xcheck)
     ctx.extra["vm_compute_crosscheck"] = {"cases": len(xcheck), "agree": ok}
     if not ok:
@@ -803,14 +1301,18 @@ def replay(ctx, data):
     if r.get("key") == "c06-roundtrip":
         server = aioftp.Server(encoding=enc)
         client = aioftp.Client(encoding=enc)
+        r["lines"] = [unpack_line(l) for l in r["lines"]]
         kind, wire = impl_write_response(loop, server, r["code"], r["lines"], r["list"])
+        if kind != "ok":
+            print("the server raised while encoding the reply:", wire)
+            return False
         data_b = wire + b"226 next\r\n"
         segs, pos = [], 0
         for n in r["segments"]:
             segs.append(data_b[pos : pos + n])
             pos += n
         got, rest = canon_presult(impl_parse_response(loop, client, segs))
-        print("decoded:", got, "rest:", rest)
+        print("emitted bytes:", len(wire), "decoded:", brief(got), "rest:", brief(repr(rest)))
         return got == [0, r["code"], expected_info(r["code"], r["lines"], r["list"])] and rest == b"226 next\r\n"
     if r.get("key") == "c06-matches":
         try:
@@ -820,10 +1322,11 @@ def replay(ctx, data):
         print("matches:", im)
         return im == spec_match(r["mask"], r["code"])
     if r.get("key") == "c06-encode-raised":
-        im = impl_write_response(loop, aioftp.Server(encoding=enc), r["code"], r["lines"], r["list"])
-        print("write_response:", im)
+        im = impl_write_response(loop, aioftp.Server(encoding=enc), r["code"], [unpack_line(l) for l in r["lines"]], r["list"])
+        print("write_response:", brief(repr(im)))
         return im[0] == "ok"
     if r.get("key") == "c06-command-loop":
+        r["replies"] = [unpack_reply(x) for x in r["replies"]]
         wires = encode_replies(loop, aioftp.Server(encoding=enc), r["replies"])
         if wires is None:
             print("the server raised while encoding the replies")
@@ -831,11 +1334,12 @@ def replay(ctx, data):
         data_b = b"".join(wires)
         got, rest = impl_commands(loop, aioftp.Client(encoding=enc), r["commands"], cut(data_b, r["segments"]))
         want, left, _ = spec_commands(r["replies"], r["commands"])
-        print("wire:", data_b, "\ncommands:", r["commands"], "\ngot:     ", got, "rest:", rest, "\nexpected:", want, "rest:", b"".join(wires[left:]))
+        print("wire:", brief(repr(data_b)), "\ncommands:", r["commands"], "\ngot:     ", brief(got), "rest:", brief(repr(rest)), "\nexpected:", brief(want), "rest:", brief(repr(b"".join(wires[left:]))))
         return got == want and rest == b"".join(wires[left:])
     if r.get("key") == "c06-sequence":
         server = aioftp.Server(encoding=enc)
         wires = []
+        r["items"] = [unpack_item(it) for it in r["items"]]
         for it in r["items"]:
             if it[0] == "good":
                 im = impl_write_response(loop, server, it[1], list(it[2]), it[3])
@@ -848,8 +1352,34 @@ def replay(ctx, data):
         data_b = b"".join(wires)
         got, rest = impl_parse_all(loop, aioftp.Client(encoding=enc), len(r["items"]) + 1, cut(data_b, r["segments"]))
         want = [[0, it[1], expected_info(it[1], it[2], it[3])] if it[0] == "good" else [1, it[1], it[2]] for it in r["items"]] + [[2]]
-        print("wire:", data_b, "\ngot:     ", got, "rest:", rest, "\nexpected:", want)
+        print("wire:", brief(repr(data_b)), "\ngot:     ", brief(got), "rest:", brief(repr(rest)), "\nexpected:", brief(want))
         return got == want and rest == b""
+    if r.get("key") == "c06-transport-sequence":
+        from .. import simnet
+
+        seq = [unpack_reply(x) for x in r["replies"]]
+        if r.get("driver") == "tcp":
+            outs, sr = run_tcp(lambda: pair_session(seq, enc, 5), 20)
+        else:
+            async def main(net):
+                net.on_connect = lambda ct, st: setattr(st.out, "segmenter", make_segmenter(r.get("segmenter")))
+                return await pair_session(seq, enc, 30)
+
+            outs, sr = simnet.run(main, wall_timeout=60)
+        want = [[0, x[0], expected_info(x[0], x[1], x[2])] for x in seq] + [[2]]
+        print("driver:", r.get("driver"), "\ngot:     ", brief(outs), "server raised:", sr, "\nexpected:", brief(want))
+        return outs == want and not sr
+    if r.get("key") == "c06-session-replies":
+        from .. import simnet
+
+        lens = r["verb_lengths"]
+        if r.get("driver") == "tcp":
+            outs = run_tcp(lambda: server_session(lens, enc, 5), 40)
+        else:
+            outs = simnet.run(lambda net: server_session(lens, enc, 30), wall_timeout=60)
+        why = judge_session(outs, lens)
+        print("driver:", r.get("driver"), "commands answered:", len(outs), "of", 2 * len(lens), "\nverdict:", why or "every command answered by the reply the server encoded for it")
+        return why is None
     if r.get("key") == "c06-parse-command":
         kind, val, rest = impl_parse_command(loop, aioftp.Server(encoding=enc), [(r["verb"] + " " + r["arg"] + "\r\n").encode(enc)])
         print("parsed:", kind, val)
